@@ -458,6 +458,14 @@ template <int K, int LEN> static V *mk_leaf(Slot &slot, MN &n) {   // a scalar o
         *v += x;
         return v;
     }
+    if (K == 31) {                       // a nested object with a removed member: {"p": unsigned} after "q" was removed  (for Compress)
+        n.k = T::Object; n.cnt = 1; n.holes = 1;
+        V *v = new (raw) V(T::Object);
+        (*v)["p"] = x;
+        (*v)["q"] = x;
+        v->Remove("q");
+        return v;
+    }
     // String
     n.len = LEN;
     for (unsigned i = 0; i < LEN; ++i) n.s[i] = c[i];
@@ -868,6 +876,8 @@ extern "C" void h_step() {
         for (unsigned i = 0; i < 6; ++i) {                          // nested containers are compressed as well
             if (m.e[i].k == T::Array) { m.e[i].cnt -= m.e[i].holes; m.e[i].holes = 0; }
             if (m.o[i].v.k == T::Array) { m.o[i].v.cnt -= m.o[i].v.holes; m.o[i].v.holes = 0; }
+            if (m.e[i].k == T::Object) m.e[i].holes = 0;             // a nested object drops its removed slots as well
+            if (m.o[i].v.k == T::Object) m.o[i].v.holes = 0;
         }
     }
 #elif OP == OP_REMOVE_KEY
